@@ -68,28 +68,43 @@ theorem absOf_ins (content : Bytes → Bytes) (k v : Bytes) (idx : SMap Bytes) :
 
 /-! ## frames of the packer steps and of the receive run -/
 
-theorem jobStep_frame (s0 : St) (j : Job) :
-    (jobStep P goodP s0 j).1.index = s0.index ∧ (jobStep P goodP s0 j).1.recv = s0.recv := by
+/-- what a packer step leaves alone (no fault is armed in the histories of the refinement) -/
+def SameFrame (s' s : St) : Prop :=
+  s'.index = s.index ∧ s'.recv = s.recv ∧ s'.lastFailed = s.lastFailed ∧ s'.failBlobs = s.failBlobs ∧
+  (s.failMeta = 0 → s'.failMeta = 0)
+
+theorem SameFrame.rfl' (s : St) : SameFrame s s := ⟨rfl, rfl, rfl, rfl, fun h => h⟩
+
+theorem SameFrame.trans {a b c : St} (h1 : SameFrame a b) (h2 : SameFrame b c) : SameFrame a c :=
+  ⟨h1.1.trans h2.1, h1.2.1.trans h2.2.1, h1.2.2.1.trans h2.2.2.1, h1.2.2.2.1.trans h2.2.2.2.1,
+   fun h => h1.2.2.2.2 (h2.2.2.2.2 h)⟩
+
+theorem jobStep_frame (s0 : St) (j : Job) : SameFrame (jobStep P goodP s0 j).1 s0 := by
   unfold jobStep
   cases j.rest with
-  | nil => exact ⟨rfl, rfl⟩
+  | nil => exact SameFrame.rfl' _
   | cons a rest =>
     cases a with
     | upload =>
       simp only
-      cases packedLines s0.index (sortRefs j.plains) <;> exact ⟨rfl, rfl⟩
+      cases packedLines s0.index (sortRefs j.plains) with
+      | none => exact SameFrame.rfl' _
+      | some ls =>
+        simp only
+        split
+        · exact ⟨rfl, rfl, rfl, rfl, fun _ => rfl⟩
+        · exact ⟨rfl, rfl, rfl, rfl, fun h => by show s0.failMeta - 1 = 0; omega⟩
     | record =>
       simp only
       cases j.packed with
-      | none => exact ⟨rfl, rfl⟩
-      | some br => simp only; split <;> exact ⟨rfl, rfl⟩
-    | remove => exact ⟨rfl, rfl⟩
+      | none => exact SameFrame.rfl' _
+      | some br => simp only; split <;> exact SameFrame.rfl' _
+    | remove => exact ⟨rfl, rfl, rfl, rfl, fun h => h⟩
 
-theorem stepJob_frame (s : St) (i : Nat) :
-    (stepJob P goodP s i).index = s.index ∧ (stepJob P goodP s i).recv = s.recv := by
+theorem stepJob_frame (s : St) (i : Nat) : SameFrame (stepJob P goodP s i) s := by
   unfold stepJob
   cases s.jobs[i]? with
-  | none => exact ⟨rfl, rfl⟩
+  | none => exact SameFrame.rfl' _
   | some j =>
     have key := jobStep_frame (P := P) { s with jobs := s.jobs.eraseIdx i } j
     simp only
@@ -97,17 +112,14 @@ theorem stepJob_frame (s : St) (i : Nat) :
     obtain ⟨s1, oj⟩ := res
     cases oj <;> exact key
 
-theorem drain_frame (fuel : Nat) (s : St) :
-    (drain P goodP fuel s).index = s.index ∧ (drain P goodP fuel s).recv = s.recv := by
+theorem drain_frame (fuel : Nat) (s : St) : SameFrame (drain P goodP fuel s) s := by
   induction fuel generalizing s with
-  | zero => exact ⟨rfl, rfl⟩
+  | zero => exact SameFrame.rfl' _
   | succ f ih =>
     simp only [drain]
     split
-    · exact ⟨rfl, rfl⟩
-    · obtain ⟨a, b⟩ := ih (stepJob P goodP s 0)
-      obtain ⟨c, d⟩ := stepJob_frame (P := P) s 0
-      exact ⟨a.trans c, b.trans d⟩
+    · exact SameFrame.rfl' _
+    · exact (ih (stepJob P goodP s 0)).trans (stepJob_frame (P := P) s 0)
 
 theorem inv_drain (I : Ideal P) (fuel : Nat) {s : St} (h : Inv P s) : Inv P (drain P goodP fuel s) := by
   induction fuel generalizing s with
@@ -120,10 +132,12 @@ theorem inv_drain (I : Ideal P) (fuel : Nat) {s : St} (h : Inv P s) : Inv P (dra
 
 /-- what a ReceiveBlob of a ref the index does not know leaves behind (before the packers run) -/
 theorem recvRun_spec (I : Ideal P) {s : St} (h : Inv P s) (h0 : s.recv = none) (k v : Bytes)
-    (hk : k = P.digest v) (hlen : v.length < 4294967296) (hnone : get s.index k = none) :
+    (hk : k = P.digest v) (hlen : v.length < 4294967296) (hnone : get s.index k = none)
+    (hfb : s.failBlobs = 0) (hfmt : s.failMeta = 0) :
     ∃ s1 row, recvBegin P goodR s k v = ((recvBegin P goodR s k v).1, none) ∧
       recvRun P goodP false 5 (recvBegin P goodR s k v).1 = s1 ∧
-      Inv P s1 ∧ s1.recv = none ∧ s1.index = ins k row s.index := by
+      Inv P s1 ∧ s1.recv = none ∧ s1.index = ins k row s.index ∧
+      s1.failBlobs = 0 ∧ s1.failMeta = 0 ∧ s1.lastFailed = false := by
   subst hk
   have hfm : fetchMeta P s.index (P.digest v) = .notExist := by simp [fetchMeta, hnone]
   have hb : recvBegin P goodR s (P.digest v) v = ((recvBegin P goodR s (P.digest v) v).1, none) := by
@@ -134,14 +148,17 @@ theorem recvRun_spec (I : Ideal P) {s : St} (h : Inv P s) (h0 : s.recv = none) (
   have i3 := inv_recvStep I i2
   have i4 := inv_recvStep I i3
   have i5 := inv_recvStep I i4
-  refine ⟨_, packIndexEntry v.length (P.digest (encryptBlob P s.nonce v)), hb, rfl, ?_, ?_, ?_⟩
+  refine ⟨_, packIndexEntry v.length (P.digest (encryptBlob P s.nonce v)), hb, rfl, ?_, ?_, ?_, ?_, ?_, ?_⟩
   · have e : recvRun P goodP false 5 (recvBegin P goodR s (P.digest v) v).1 =
         recvStep P goodP (recvStep P goodP (recvStep P goodP (recvStep P goodP (recvStep P goodP
           (recvBegin P goodR s (P.digest v) v).1)))) := by
-      simp [recvBegin, hfm, recvRun, recvStep, goodR, St.record]
+      simp [recvBegin, hfm, recvRun, recvStep, goodR, St.record, hfb, hfmt]
     rw [e]; exact i5
-  · simp [recvBegin, hfm, recvRun, recvStep, goodR, St.record]
-  · simp [recvBegin, hfm, recvRun, recvStep, goodR, St.record]
+  · simp [recvBegin, hfm, recvRun, recvStep, goodR, St.record, hfb, hfmt]
+  · simp [recvBegin, hfm, recvRun, recvStep, goodR, St.record, hfb, hfmt]
+  · simp [recvBegin, hfm, recvRun, recvStep, goodR, St.record, hfb, hfmt]
+  · simp [recvBegin, hfm, recvRun, recvStep, goodR, St.record, hfb, hfmt]
+  · simp [recvBegin, hfm, recvRun, recvStep, goodR, St.record, hfb, hfmt]
 
 /-! ## enumerate -/
 
@@ -192,6 +209,7 @@ structure Sim (P : Params) (content : Bytes → Bytes) (s : St) : Prop where
   inv : Inv P s
   quiet : s.recv = none
   keys : ∀ k v, get s.index k = some v → k = P.digest (content k) ∧ (content k).length < 4294967296
+  nofault : s.failBlobs = 0 ∧ s.failMeta = 0
 
 theorem Sim.row (I : Ideal P) {content : Bytes → Bytes} {s : St} (h : Sim P content s) {k v : Bytes}
     (hg : get s.index k = some v) :
@@ -246,33 +264,42 @@ theorem sim_step (I : Ideal P) (content : Bytes → Bytes) {s : St} (h : Sim P c
     simp only [encImpl, enumerateBlobs, this, toOut, RefMap.out, RefMap.enumOf, sizes_absOf_filter, Nat.sub_zero]
   | recv k v =>
     obtain ⟨hv, hk, hlen⟩ := hop
+    subst hv
     simp only [encImpl, RefMap.out, RefMap.next]
     cases hg : get s.index k with
     | some row =>
       obtain ⟨r, _, _, r3⟩ := h.row I hg
-      have hrb : receiveBlob P goodR goodP false s k v = (s, .sized (content k).length) := by
+      have hrb : receiveBlob P goodR goodP false s k (content k) = (s, .sized (content k).length) := by
         simp [receiveBlob, recvBegin, r3]
       have hhas : has (absOf content s.index) k = true := by simp [has, get_absOf, hg]
       rw [hrb]
-      simp only [toOut, hhas, if_true, hv]
+      simp only [toOut, hhas, if_true]
       exact ⟨trivial, trivial, h⟩
     | none =>
-      obtain ⟨s1, row, hb, hrun, i1, q1, x1⟩ := recvRun_spec I h.inv h.quiet k v hk hlen hg
+      obtain ⟨s1, row, hb, hrun, i1, q1, x1, f1, f2, f3⟩ :=
+        recvRun_spec I h.inv h.quiet k (content k) hk hlen hg h.nofault.1 h.nofault.2
       have hhas : has (absOf content s.index) k = false := by simp [has, get_absOf, hg]
-      have hrb : receiveBlob P goodR goodP false s k v = (drain P goodP (drainFuel s1) s1, .sized v.length) := by
+      subst hrun
+      have hrb : receiveBlob P goodR goodP false s k (content k) =
+          (drain P goodP (drainFuel (recvRun P goodP false 5 (recvBegin P goodR s k (content k)).1))
+            (recvRun P goodP false 5 (recvBegin P goodR s k (content k)).1), .sized (content k).length) := by
         unfold receiveBlob
         rw [hb]
-        simp only [goodR, List.length_cons, List.length_nil] at hrun ⊢
-        rw [hrun]
+        show (drain P goodP (drainFuel (recvRun P goodP false 5 (recvBegin P goodR s k (content k)).1))
+            (recvRun P goodP false 5 (recvBegin P goodR s k (content k)).1),
+          if (recvRun P goodP false 5 (recvBegin P goodR s k (content k)).1).lastFailed = true then Res.err
+          else Res.sized (content k).length) = _
+        simp only [f3, Bool.false_eq_true, if_false]
       rw [hrb]
-      obtain ⟨d1, d2⟩ := drain_frame (P := P) (drainFuel s1) s1
-      simp only [toOut, hhas, Bool.false_eq_true, if_false, d1, x1, absOf_ins, hv]
-      refine ⟨trivial, trivial, inv_drain I _ i1, d2.trans q1, ?_⟩
+      obtain ⟨d1, d2, _, d4, d5⟩ := drain_frame (P := P)
+        (drainFuel (recvRun P goodP false 5 (recvBegin P goodR s k (content k)).1)) (recvRun P goodP false 5 (recvBegin P goodR s k (content k)).1)
+      simp only [toOut, hhas, Bool.false_eq_true, if_false, d1, x1, absOf_ins]
+      refine ⟨trivial, trivial, inv_drain I _ i1, d2.trans q1, ?_, d4.trans f1, d5 f2⟩
       intro k' v' hg'
       rw [d1, x1, get_ins] at hg'
       by_cases hkk : k' = k
       · subst hkk
-        exact ⟨by rw [← hv]; exact hk, by rw [← hv]; exact hlen⟩
+        exact ⟨hk, hlen⟩
       · simp only [hkk, if_false] at hg'
         exact h.keys k' v' hg'
 
@@ -289,6 +316,92 @@ theorem refines_refmap (I : Ideal P) (content : Bytes → Bytes) (ops : List Ref
     rw [ih (fun o ho' => hops o (by simp [ho'])) _ hs, ha]
 
 theorem sim_init (content : Bytes → Bytes) : Sim P content ({} : St) :=
-  ⟨inv_init, rfl, by intro k v hg; simp [SMap.get] at hg⟩
+  ⟨inv_init, rfl, by intro k v hg; simp [SMap.get] at hg, rfl, rfl⟩
+
+end Pk.Encrypt
+
+namespace Pk.Encrypt
+open Pk Pk.SMap
+variable {P : Params}
+
+/-! ## acknowledged ⇒ the index has the row (also in histories with failing wrapped stores) -/
+
+/-- when the ReceiveBlob in flight has run its program to the end and no wrapped store failed – i.e. it is
+about to return success – the index knows its blob -/
+def AckOK (s : St) : Prop :=
+  ∀ x, s.recv = some x → x.rest = [] → s.lastFailed = false → ∃ v, get s.index x.plainBR = some v
+
+theorem readAll_recv (psteps : List PStep) (order : List Bytes) (t : St) :
+    (readAllMetaBlobs P psteps order t).1.recv = t.recv := by
+  induction order generalizing t with
+  | nil => rfl
+  | cons n rest ih =>
+    simp only [readAllMetaBlobs]
+    split
+    · rfl
+    · split
+      · rfl
+      · rw [ih]; rfl
+
+theorem ack_step {s s' : St} (h : Inv P s) (ha : AckOK s) (st : Step P goodR goodP s s') : AckOK s' := by
+  cases st with
+  | recvBegin ref plain _ h0 hlen hb =>
+    unfold recvBegin at hb
+    split at hb
+    · cases hb
+    · split at hb
+      · cases hb
+      · injection hb with hb _
+        subst hb
+        intro x hx hr
+        injection hx with hx
+        subst hx
+        simp [goodR] at hr
+  | recvStep hne =>
+    unfold recvStep
+    cases hx : s.recv with
+    | none => rw [hx] at hne; exact absurd rfl hne
+    | some x =>
+      obtain ⟨_, _, _, r4⟩ := h.recv x hx
+      rcases r4 with ⟨hm, hr | hr | hr⟩ | ⟨m, hm, _, hr | ⟨hr | hr, _⟩⟩
+      · simp only [hr, goodR]
+        split
+        · intro y _ _ hl; simp at hl
+        · intro y hy hr'; injection hy with hy; subst hy; simp at hr'
+      · simp only [hr]
+        split
+        · intro y _ _ hl; simp at hl
+        · intro y hy hr'; injection hy with hy; subst hy; simp at hr'
+      · simp only [hr]; intro y hy; cases hy
+      · simp only [hr]; intro y hy; cases hy
+      · simp only [hr, hm]
+        intro y hy hr'
+        have hy' : some ({ x with metaBR := some m, rest := [RStep.setIndex] } : Recv) = some y := hy
+        injection hy' with hy'
+        subst hy'
+        simp at hr'
+      · simp only [hr]
+        intro y hy _ _
+        injection hy with hy
+        subst hy
+        refine ⟨packIndexEntry x.size x.encBR, ?_⟩
+        show get (ins x.plainBR (packIndexEntry x.size x.encBR) s.index) x.plainBR = some _
+        rw [get_ins]; simp
+  | jobStep i =>
+    obtain ⟨f1, f2, f3, _, _⟩ := stepJob_frame (P := P) s i
+    intro x hx hr hl
+    rw [f2] at hx; rw [f3] at hl; rw [f1]
+    exact ha x hx hr hl
+  | restart wipe order hord =>
+    intro x hx
+    unfold restart at hx
+    rw [readAll_recv] at hx
+    simp [crash] at hx
+  | arm b m => exact ha
+
+theorem ack_reach (I : Ideal P) {s : St} (hr : Reach P goodR goodP s) : AckOK s := by
+  induction hr with
+  | init => intro x hx; cases hx
+  | step s s' hr' st ih => exact ack_step (inv_reach I hr') ih st
 
 end Pk.Encrypt
